@@ -1,11 +1,11 @@
-\* exhaustive: 2 keys, initial objects absent|T1; streams len 1 rich (all forms/modifiers/faults), len 2 medium, len 3 order-level documents; ~125 k cases, ~15 s
+\* exhaustive: 2 keys, initial objects absent|T1; streams len 1 rich (all forms/modifiers/faults), len 2 medium, len 3 quick order-level documents (19); ~60 k cases, ~8 s
 SPECIFICATION Spec
 CONSTANTS
   Keys = {"a", "b"}
   InitObjs = {"1"}
   L1 = "rich"
   L2 = "medium"
-  L3 = "order"
+  L3 = "orderq"
   AsIs = {}
   Emit = TRUE
   SampleMod = 1
